@@ -51,6 +51,42 @@ Example C18_selective_nontrivial :
 Proof. exact pruned_method_not_found. Qed.
 Print Assumptions C18_selective_nontrivial.
 
+(* ---- package layout: the validation runs per sub-package view ---- *)
+
+(* whatever the layout of services over proto sub-packages, an entry with a violation (judged against the whole API:
+   unknown method, streaming, bad field) is rejected by EVERY view, so no view that gets evaluated lets it through;
+   duplicates are covered by C18_duplicates_rejected, which holds for every table, hence for every view *)
+Theorem C18_violation_rejected_in_every_layout : forall view ms settings s,
+  methods_wf (full_table ms) -> In s settings -> violates (full_table ms) s ->
+  enforce (view_table view ms) settings = Crashed \/
+  exists errs e, enforce (view_table view ms) settings = Rejected errs /\ assoc (s_selector s) errs = Some e.
+Proof. exact violation_rejected_in_every_layout. Qed.
+Print Assumptions C18_violation_rejected_in_every_layout.
+
+Theorem C18_violation_never_generated : forall ms settings s m0,
+  methods_wf (full_table ms) -> In m0 ms -> In s settings -> violates (full_table ms) s ->
+  generation_accepts ms settings = false.
+Proof. exact violation_never_generated. Qed.
+Print Assumptions C18_violation_never_generated.
+
+(* the converse does NOT hold of the code: settings that are valid for the whole API are rejected when some service
+   lives in a sub-package whose view does not hold the named method ("Method was not found.") *)
+Theorem C18_layout_valid_settings_rejected_refuted :
+  exists ms settings,
+    methods_wf (full_table ms) /\ spec_valid (full_table ms) settings /\ generation_accepts ms settings = false /\
+    In (Rejected [("pkg.Lib.CreateBook", SMethodNotFound)]) (view_outcomes ms settings).
+Proof. exact layout_valid_settings_rejected_refuted. Qed.
+Print Assumptions C18_layout_valid_settings_rejected_refuted.
+
+Example C18_layout_nontrivial :
+  view_outcomes layout_mixed [mkSetting "pkg.Lib.CreateBooks" ["request_id"]]
+    = [Rejected [("pkg.Lib.CreateBooks", SMethodNotFound)]; Rejected [("pkg.Lib.CreateBooks", SMethodNotFound)]] /\
+  view_outcomes layout_mixed [mkSetting "pkg.Lib.CreateBook" ["name"]]
+    = [Rejected [("pkg.Lib.CreateBook", SFields [("name", FRequired); ("name", FNotUuid4)])]; Rejected [("pkg.Lib.CreateBook", SMethodNotFound)]] /\
+  generation_accepts layout_mixed [mkSetting "pkg.admin.Admin.CreateThing" ["opt_id"]] = true.
+Proof. exact layout_example. Qed.
+Print Assumptions C18_layout_nontrivial.
+
 (* a selector that occurs twice is reported as a duplicate, whatever else the list contains *)
 Theorem C18_duplicates_rejected : forall methods l1 s1 l2 s2 l3,
   s_selector s1 = s_selector s2 ->
